@@ -189,6 +189,9 @@ impl BlteBuilder {
             super::error::BlteError::CompressionError("No encryption config set".to_string())
         })?;
 
+        // The chunk table records the size of the content the chunk decodes to,
+        // not the size of the inner (mode byte + compressed) payload
+        let decompressed_size = data.len();
         let inner = self.build_inner_payload(data)?;
 
         // Encrypt the payload (mode byte + compressed/raw data)
@@ -198,7 +201,7 @@ impl BlteBuilder {
         Ok(ChunkData::from_compressed(
             CompressionMode::Encrypted,
             encrypted_data,
-            Some(inner.len()),
+            Some(decompressed_size),
         ))
     }
 
@@ -210,6 +213,8 @@ impl BlteBuilder {
         key: [u8; 16],
         block_index: usize,
     ) -> BlteResult<ChunkData> {
+        // See create_encrypted_chunk: record the decoded content size
+        let decompressed_size = data.len();
         let inner = self.build_inner_payload(data)?;
 
         // Encrypt the payload (mode byte + compressed/raw data)
@@ -218,7 +223,7 @@ impl BlteBuilder {
         Ok(ChunkData::from_compressed(
             CompressionMode::Encrypted,
             encrypted_data,
-            Some(inner.len()),
+            Some(decompressed_size),
         ))
     }
 
@@ -605,6 +610,45 @@ mod tests {
             assert_eq!(
                 decrypted, data,
                 "Encryption round-trip failed for test case {i}"
+            );
+        }
+    }
+
+    #[test]
+    fn test_builder_encrypted_chunk_table_sizes() {
+        // The chunk table must describe the decoded content, also for encrypted
+        // chunks with an inner compression mode.
+        let data = vec![0x41u8; 300];
+        let key_name = 0x5555_6666_7777_8888;
+        let key = [0x33; 16];
+        let spec = EncryptionSpec::salsa20(key_name, [0xEE, 0xFF, 0x00, 0x11]);
+
+        for mode in [
+            CompressionMode::None,
+            CompressionMode::ZLib,
+            CompressionMode::LZ4,
+        ] {
+            let blte = BlteBuilder::new()
+                .with_compression(mode)
+                .with_encryption(spec, key)
+                .add_data(&data)
+                .expect("Operation should succeed")
+                .add_mixed_data(&data[..7], Some((spec, key)))
+                .expect("Operation should succeed")
+                .build()
+                .expect("Test operation should succeed");
+
+            let infos = &blte
+                .header
+                .extended
+                .as_ref()
+                .expect("encrypted content has a chunk table")
+                .chunk_infos;
+            assert_eq!(infos[0].decompressed_size, 300);
+            assert_eq!(infos[1].decompressed_size, 7);
+            assert_eq!(
+                infos[0].compressed_size as usize,
+                blte.chunks[0].compressed_size()
             );
         }
     }
